@@ -18,6 +18,8 @@ type pipeCase struct {
 	Query   string       `json:"query"`   // query text, must contain an outfile clause pointing to Outfile
 	Outfile string       `json:"outfile"` // path of the CSV
 	Servers []pipeServer `json:"servers"`
+	// SlowClientUs: the client side takes this many microseconds per message (a client that is slower than the server)
+	SlowClientUs int `json:"slow_client_us,omitempty"`
 }
 
 type pipeResult struct {
